@@ -26,7 +26,11 @@ def tokenize(text):
         elif m.group(3):
             out.append(("str", m.group(3)[1:-1].replace('""', '"')))
         elif m.group(4):
-            out.append(("sym", m.group(4)[1:-1]))
+            # |x| is the symbol x when x is a simple symbol that needs no quotes; otherwise the bars stay part of the name here,
+            # so that |let|, |0| or |a b| can never be taken for a keyword, a numeral or two tokens
+            inner = m.group(4)[1:-1]
+            plain = bool(SIMPLE.match(inner)) and not NUMLIKE.match(inner) and inner not in KEYWORDS
+            out.append(("sym", inner if plain else m.group(4)))
         elif m.group(5):
             out.append(("sym", m.group(5)))
     return out
@@ -57,6 +61,11 @@ def sym(x):
 
 
 SIMPLE = re.compile(r"[A-Za-z0-9~!@$%^&*_+=<>.?/-]+$")
+NUMLIKE = re.compile(r"-?[0-9]")
+KEYWORDS = {"let", "forall", "exists", "par", "!", "_", "as", "true", "false", "not", "and", "or", "xor", "=>", "=", "ite", "distinct", "+",
+            "*", "-", "/", "div", "mod", "<=", "<", ">=", ">", "NUMERAL", "DECIMAL", "STRING", "assert", "check-sat", "define-fun",
+            "declare-fun", "declare-const", "declare-sort", "set-logic", "set-option", "push", "pop", "exit",
+            "select", "store", "abs", "to_real", "to_int", "is_int"}
 
 
 def unparse(x):
@@ -65,7 +74,7 @@ def unparse(x):
         return "(" + " ".join(unparse(y) for y in x) + ")"
     if x[0] == "str":
         return '"' + x[1].replace('"', '""') + '"'
-    return x[1] if SIMPLE.match(x[1]) else f"|{x[1]}|"
+    return x[1] if SIMPLE.match(x[1]) or x[1].startswith("|") else f"|{x[1]}|"
 
 
 NUM = re.compile(r"[0-9]+(\.[0-9]+)?$")
